@@ -722,3 +722,55 @@ def r13_13_bucket_providers_build_fresh_buckets(ctx: Ctx) -> RuleResult:
                 bad = next(r for r in rets if not isinstance(r, ast.Call))
                 rr.fail(f.qual, f"the bucket provider returns `{unparse(bad)[:60]}`, an object created outside the provider: every parse of the pattern shares it, so fields left by one text are seen by the next", ctx.loc(f, n))
     return rr
+
+
+# ------------------------------------------------------------------------------------------- R13.14 guard field is published last
+
+
+def _guarded_group_inits(ctx: Ctx):
+    """Functions of the shape `if <obj>.G is not None: return` (fast path, no lock) ... `with <lock>:` re-test, then several attribute
+    stores on the same object: yields (function, guard attribute, ordered stores inside the locked block)."""
+    for f in sorted(set(ctx.M.func_of_node.values()), key=lambda x: x.qual):
+        if isinstance(f.node, ast.Lambda) or not f.mod.rel.startswith("pyoda_time/"):
+            continue
+        body = f.body
+        fast = None
+        for s in body:
+            if isinstance(s, ast.If) and len(s.body) == 1 and isinstance(s.body[0], ast.Return) and isinstance(s.test, ast.Compare) and len(s.test.ops) == 1 and isinstance(s.test.ops[0], ast.IsNot) \
+                    and isinstance(s.test.left, ast.Attribute) and isinstance(s.test.comparators[0], ast.Constant) and s.test.comparators[0].value is None:
+                fast = s.test.left
+                break
+            if isinstance(s, (ast.With,)):
+                break
+        if fast is None:
+            continue
+        for s in body:
+            if isinstance(s, ast.With):
+                stores = []
+                for n in ast.walk(s):
+                    if isinstance(n, (ast.Assign, ast.AnnAssign)):
+                        for t in (n.targets if isinstance(n, ast.Assign) else [n.target]):
+                            if isinstance(t, ast.Attribute) and unparse(t.value) == unparse(fast.value):
+                                stores.append((t.attr, n))
+                if stores:
+                    yield f, fast.attr, sorted(stores, key=lambda x: (x[1].lineno, x[1].col_offset))
+
+
+@rule("C13")
+def r13_14_guard_field_is_published_last(ctx: Ctx) -> RuleResult:
+    """Double-checked initialisation of a GROUP of fields: the field tested on the lock-free fast path tells readers that the whole
+    group is ready, so it must be the last one stored inside the locked block.  If it is stored first, a second thread passes the
+    fast-path test while the first is still computing the other fields and reads a field that is still None (or does not exist
+    yet): the result depends on the interleaving."""
+    rr = RuleResult("R13.14", "double-checked group initialisation stores the field tested on the lock-free fast path after every other field of the group", min_instances=2)
+    for f, guard, stores in _guarded_group_inits(ctx):
+        rr.inst()
+        attrs = [a for a, _ in stores]
+        if guard not in attrs:
+            rr.fail(f.qual, f"the fast path tests `{guard}` but the locked block never stores it", ctx.loc(f))
+        elif attrs[-1] == guard and attrs.count(guard) == 1:
+            rr.ok({"function": f.qual, "guard": guard, "group": attrs})
+        else:
+            later = [a for a in attrs[attrs.index(guard) + 1:] if a != guard]
+            rr.fail(f.qual, f"`{guard}` (tested without the lock) is stored before {later}: a concurrent reader that sees it set uses fields that are not initialised yet", ctx.loc(f, stores[attrs.index(guard)][1]))
+    return rr
